@@ -45,4 +45,10 @@ for prop in sorted(os.listdir(src)):
             json.dump(meta, open(os.path.join(dst, "meta.json"), "w"), indent=1)
         summary[sid] = {"kept": bool(ok), "detected": {k: v["rules"] for k, v in ev.get("fired", {}).items() if v["exit"] == 1}, "analysis_error_only": [k for k, v in ev.get("fired", {}).items() if v["exit"] == 2]}
         print(sid, "kept" if ok else "REJECTED", summary[sid]["detected"] or "NOT DETECTED", flush=True)
-json.dump(summary, open(os.path.join(out_root, f"SUMMARY{("-" + tag.strip("-")) if tag else ""}.json"), "w"), indent=1)
+sp = os.path.join(out_root, f"SUMMARY{("-" + tag.strip("-")) if tag else ""}.json")
+merged = {}
+if os.path.exists(sp):
+    try: merged = json.load(open(sp))
+    except Exception: merged = {}
+merged.update(summary)
+json.dump(dict(sorted(merged.items())), open(sp, "w"), indent=1)
